@@ -63,6 +63,13 @@ func (h *SimHost) NewStream(ctx context.Context, p peer.ID, pids ...protocol.ID)
 	}
 	w.pseq++
 	s := &SimStream{w: w, id: w.pseq, src: h.inc.Node, dst: dst, notify: make(chan struct{}, 1)}
+	if w.StreamCloseErrNext > 0 {
+		// the connection will be gone by the time the writer closes: everything written is
+		// delivered, Close reports the loss
+		w.StreamCloseErrNext--
+		s.closeErr = true
+		w.stat("stream-close-error")
+	}
 	w.streams = append(w.streams, s)
 	w.stat("stream-open")
 	rd := &streamReader{s: s}
@@ -82,6 +89,7 @@ type SimStream struct {
 	reset    bool   // reader sees an error
 	rclosed  bool   // reader side reset/closed the stream
 	trunc    bool   // the kernel cut the stream short
+	closeErr bool   // the writer's Close reports an error although every byte gets through
 	notify   chan struct{}
 }
 
@@ -117,7 +125,11 @@ func (sw *streamWriter) Close() error {
 	s := sw.s
 	s.w.mu.Lock()
 	s.wclosed = true
+	ce := s.closeErr
 	s.w.mu.Unlock()
+	if ce {
+		return errors.New("sim: stream reset")
+	}
 	return nil
 }
 
